@@ -83,7 +83,7 @@ ARM_SPECS = {
 """),
     "ResetState": ("vx_arm_reset_state",
                    "provision_state_0: ProvisionFlags, state: ProvisionFlags, response: oneshot::Sender<ProvisionFlags>", "ProvisionFlags",
-                   "let mut provision_state = provision_state_0;", "provision_state", """
+                   "let mut provision_state = provision_state_0;", "proof { lemma_reset_bits(pf_bits(provision_state_0), pf_bits(state), PF_DECLARED_UNION); }\nprovision_state", """
         ensures
             pf_bits(r) == pf_bits(provision_state_0) & (!pf_bits(state) & PF_DECLARED_UNION),  // @C16.actor.ResetState.new_state_is_old_and_not_s
             pf_bits(r) == step(World { flags: pf_bits(provision_state_0), tick: 0, ever_all_ready: false, deadline_passed: false }, Ev::Reset { s: pf_bits(state) }).flags,  // @C16.actor.ResetState.refines_model_step
